@@ -15,7 +15,6 @@ import (
 
 	"github.com/vicanso/elton"
 	"github.com/vicanso/pike/cache"
-	"github.com/vicanso/pike/config"
 	"github.com/vicanso/pike/server"
 )
 
@@ -241,6 +240,8 @@ var directedSchedules = [][]string{
 	{"store:1", "arrive:0", "get:0:honest", "upEnd:0:cacheable:60", "complete:0", "saved:0:1", "purgeRace:0", "get:1:honest", "upEnd:1:cacheable:60", "complete:1", "saved:1:1", "arrive:0", "get:2:honest", "age:2"},
 	// the same after a restart (entry only in the store)
 	{"store:1", "arrive:0", "get:0:honest", "upEnd:0:cacheable:60", "complete:0", "saved:0:1", "crash", "purgeRace:0", "get:1:honest", "upEnd:1:cacheable:60", "complete:1", "saved:1:1"},
+	// a purge through the admin endpoint whose store delete is slow: the operator's 204 comes after the delete, not before
+	{"store:1", "arrive:0", "get:0:honest", "upEnd:0:cacheable:60", "complete:0", "saved:0:1", "purgeAck:0", "arrive:0", "get:1:honest", "upEnd:1:cacheable:60", "complete:1", "saved:1:1"},
 	// two requests racing through the dispatcher's get-or-create for a cold key: one entry, one fetch
 	{"store:0", "arriveRace:0", "get:0", "get:1", "park:1", "upEnd:0:cacheable:60", "complete:0", "saved:0:1", "resume:1", "age:1"},
 	// the same for a key made cold again by a purge
@@ -503,7 +504,7 @@ func runSchedule(cr *rng, seq int, script []string) (blocked bool) {
 		if script != nil {
 			sp = strings.Split(script[step], ":")
 			a = action{name: sp[0]}
-			if sp[0] != "arrive" && sp[0] != "tick" && sp[0] != "purge" && sp[0] != "purgeRace" && sp[0] != "arriveRace" && sp[0] != "reload" && sp[0] != "crash" {
+			if sp[0] != "arrive" && sp[0] != "tick" && sp[0] != "purge" && sp[0] != "purgeRace" && sp[0] != "purgeAck" && sp[0] != "arriveRace" && sp[0] != "reload" && sp[0] != "crash" {
 				ti, _ := strconv.Atoi(sp[1])
 				if ti >= len(run.threads) {
 					emit("sched", "script-error", script[step])
@@ -723,6 +724,61 @@ func runSchedule(cr *rng, seq int, script []string) (blocked bool) {
 				run.await(t2)
 			}
 			emit("sched", "arrive", idOf(t2), itoa(int64(t2.key)), hx(t2.method), "=>", posLine(t2), itoa(int64(run.eidx(t2.entry))))
+		case "purgeAck":
+			// a purge through the admin server's endpoint, held inside its store delete: as long as the delete has not
+			// been carried out the operator has no answer (an acknowledged purge is a completed purge — after the
+			// 204 a kill or a stop must not bring the record back)
+			k, _ := strconv.Atoi(arg(1, "0"))
+			run.delPlan = true
+			run.delGate, run.delAt = make(chan struct{}), make(chan struct{}, 1)
+			acked := make(chan int, 1)
+			go func() {
+				code, err := adminPurge("c1", "GET s.test "+schedKeyURI(k))
+				if err != nil {
+					code = -1
+				}
+				acked <- code
+			}()
+			early, inDelete, code := false, false, 0
+			select {
+			case <-run.delAt:
+				inDelete = true
+			case code = <-acked:
+				early = true // answered before the delete was even started (or there is no admin server: code -1)
+			case <-time.After(schedWatchdog):
+				run.blocked = true
+			}
+			if inDelete {
+				select {
+				case code = <-acked:
+					early = true
+				case <-time.After(300 * time.Millisecond):
+				}
+			}
+			close(run.delGate)
+			if !early && !run.blocked {
+				select {
+				case code = <-acked:
+				case <-time.After(schedWatchdog):
+					run.blocked = true
+				}
+			} else if early {
+				// let the belated delete finish before the schedule goes on
+				select {
+				case <-run.delAt:
+				case <-time.After(300 * time.Millisecond):
+				}
+				time.Sleep(20 * time.Millisecond)
+			}
+			run.delGate = nil
+			if code == -1 {
+				// no admin server on this machine right now: purge directly, nothing to judge
+				run.ctl(func() { cache.RemoveHTTPCache("c1", []byte("GET s.test "+schedKeyURI(k))) })
+				stat("admin-unavailable")
+			} else {
+				emit("sched", "purgeack", itoa(int64(k)), b2s(early), itoa(int64(code)))
+			}
+			emit("sched", "purge", itoa(int64(k)), "1")
 		case "purgeRace":
 			// a purge held inside its store delete while a request for the same key arrives: with the delete
 			// under the shard lock the request cannot look the key up before the purge is complete
@@ -781,13 +837,13 @@ func runSchedule(cr *rng, seq int, script []string) (blocked bool) {
 		case "reload":
 			// a configuration reload that leaves this cache as it is (main.update calls ResetDispatchers on every
 			// change of any section): requests in flight and resident entries are not disturbed
-			run.ctl(func() { cache.ResetDispatchers([]config.CacheConfig{p.cacheCfg}) })
+			run.ctl(func() { cache.ResetDispatchers(withSibling(p.cacheCfg)) })
 			emit("sched", "reload")
 		case "crash":
 			// restart with the same store: every entry gone (no request is in flight here)
 			run.ctl(func() {
 				cache.ResetDispatchers(nil)
-				cache.ResetDispatchers([]config.CacheConfig{p.cacheCfg})
+				cache.ResetDispatchers(withSibling(p.cacheCfg))
 			})
 			run.waiters = map[interface{}][]*schedThread{}
 			emit("sched", "crash")
